@@ -2,9 +2,9 @@
   Driver family `blk` (C13): the blocking event machine `Ferrous.Blk`.
 
   One session = one line stream.  Keys and elements travel as lower-case hex (`-` = empty).
-    cfg <npe> <wap> <uas> <rit> <ddk> <dra> <nbh> <dfb> -> ok   quirk switches (0/1): notifyPerElement wakeAtPush
+    cfg <npe> <wap> <uas> <rit> <ddk> <dra> <nbh> <dfb> <xat> -> ok   quirk switches (0/1): notifyPerElement wakeAtPush
                                                    unregisterAllOnServe refuseBlockingInTx dedupKeys drainAll
-                                                   noticeBlockedHangup deferBatchWhenBlocked; resets the state
+                                                   noticeBlockedHangup deferBatchWhenBlocked execAtomic; resets the state
     reset                              -> ok
     ev wakeups                         -> <A> <tags> <F> <ftags> <outs>
     ev timeouts <now>                  -> <A> <tags> <F> <ftags> <outs>
@@ -231,7 +231,7 @@ def step (ss : Sess) (ws : List String) : Sess × String :=
   match ws with
   | "cfg" :: flags =>
     match flags.mapM readBool with
-    | some [a, b, c, d, e, f, g, h] => ({ q := ⟨a, b, c, d, e, f, g, h⟩, s := {} }, "ok")
+    | some [a, b, c, d, e, f, g, h, i] => ({ q := ⟨a, b, c, d, e, f, g, h, i⟩, s := {} }, "ok")
     | _ => (ss, "bad-op")
   | ["reset"] => ({ ss with s := {} }, "ok")
   | "ev" :: rest =>
